@@ -608,6 +608,13 @@ func c20GenChart(t *rapid.T, target string) c20Case {
 	if rapid.IntRange(0, 3).Draw(t, "helmignore") == 0 {
 		c20Put(in, ".helmignore", c20MutateBytes(t, []byte("*.bak\n!keep.bak\n/dir/\n"), "ign"))
 	}
+	// the other metadata files a chart may carry (legacy requirements files, lock files), well-formed, empty or null
+	for _, name := range []string{"requirements.yaml", "requirements.lock", "Chart.lock"} {
+		if rapid.IntRange(0, 4).Draw(t, "has-"+name) == 0 {
+			body := rapid.SampledFrom([]string{"dependencies:\n- name: sub\n  version: 1.0.0\n  repository: file://../sub\n", "", "null", "~", "---", "# only a comment\n", "[]", "dependencies: null\n", "dependencies: [null]\n", "generated: nonsense\ndigest: 1\n", "\t"}).Draw(t, "body-"+name)
+			c20Put(in, name, []byte(body))
+		}
+	}
 	c20Put(in, "charts/sub/Chart.yaml", []byte("apiVersion: v2\nname: sub\nversion: 1.0.0\n"))
 	c20Put(in, "charts/sub/values.yaml", sy)
 	c20Put(in, "charts/sub/templates/s.yaml", []byte("s: {{ toJson .Values | quote }}\n"))
